@@ -62,6 +62,12 @@ func main() {
 		json.Unmarshal(b, &v)
 		*prop, *tier, *nocache = v.Property, v.Tier, true
 	}
+	// watchdog: an analysis that does not finish is a checker fault, never a silent pass
+	time.AfterFunc(20*time.Minute, func() {
+		fmt.Println("bvcheck: analysis exceeded 20 minutes; aborting")
+		fmt.Printf("VIOLATION property=%s replay=%s\n", *prop, "checker-timeout")
+		os.Exit(1)
+	})
 	seed, _ := strconv.ParseInt(os.Getenv("VERIF_SEED"), 10, 64)
 	byID := map[string]*core.Property{}
 	for _, p := range rules.All {
